@@ -479,7 +479,7 @@ def run_program(case):
         for key in ('a', 'b'):
             x = env.regs[st[key]] if key in st else None
             if isinstance(x, npc.Array):
-                pre[key] = {'labels': list(x._labels), 'nblocks': len(x._data), 'dtype': str(x.dtype), 'rank': int(x.rank),
+                pre[key] = {'labels': list(x._labels), 'nblocks': len(x._data), 'dtype': str(x.dtype), 'rank': int(x.rank), 'shape': [int(n) for n in x.shape],
                             'zero_size': any(bool(np.any(np.diff(l.slices) == 0)) for l in x.legs)}
         rec['pre'] = pre
         if st['op'] in ('transpose', 'itranspose') and st.get('axes') is not None and 'a' in pre:
